@@ -73,7 +73,32 @@ Theorem C09_carried_state_is_reset :
 Proof. exact (conj carried_all_reset gen_policy_ok). Qed.
 Print Assumptions C09_carried_state_is_reset.
 
+(* captured variables never leak from one node, rule or file to the next through the Contains() sub-matcher: in every
+   sequence of Contains() evaluations (whatever the earlier ones -- other rules, other nodes, other files, earlier runs on
+   the same state, injected left-overs -- put into gogrepSubState.CapturePreset) each evaluation presets the sub-pattern
+   with the captures of ITS OWN match (the closure read from filters.go this run stores them before any use) *)
+Theorem C09_contains_presets_own_captures :
+  forall (capture : Type) (leftover : list capture) (h : list (list capture * bool)),
+  reg_history (list capture) contains_preset_policy leftover h = map fst h.
+Proof. intros. apply reg_history_independent. exact contains_preset_always. Qed.
+Print Assumptions C09_contains_presets_own_captures.
+
+(* the variadic-length register of the operand stack (kept in RunnerState.evalEnv): every variadic native call of every
+   custom filter, in every sequence of evaluations, pops the number of variadic arguments of ITS OWN call site (the
+   compiler read this run emits the store as the instruction in front of the call; the instruction is the register's only
+   writer and PopVariadic its only reader) *)
+Theorem C09_variadic_len_is_per_call :
+  value_stack_covered = true /\
+  forall (leftover : N) (h : list (N * bool)), reg_history N variadic_len_policy leftover h = map fst h.
+Proof. split; [exact (proj2 variadic_len_always)|]. intros. apply reg_history_independent. exact (proj1 variadic_len_always). Qed.
+Print Assumptions C09_variadic_len_is_per_call.
+
 (* ---- non-vacuity ---- *)
+(* a store that is skipped for some evaluations (no captures / same operand as the last store) leaks *)
+Example c09_conditional_store_leaks :
+  reg_history N WriteSometimes 0%N [(2%N, true); (1%N, false)] = [2%N; 2%N] /\
+  reg_history N WriteSometimes 7%N [(1%N, false)] <> reg_history N WriteSometimes 0%N [(1%N, false)].
+Proof. exact reg_sometimes_leaks. Qed.
 Example c09_demo : forall c, wf gen_spec (demo_tree c).
 Proof. exact demo_wf. Qed.
 (* a walk that starts inside dead code, inside function 77, below two foreign ancestors: restored exactly *)
